@@ -4,6 +4,7 @@
 @theorem("theorems:C01_roundtrip")
 def c01_roundtrip(fcp: "ref:FcpV2", name: "str", v: "dyn"):
     option("module", "fcp.serde")
+    option("opaque", ["wire_struct", "conforms_struct", "starts_struct", "wf_struct"])
     requires(wf_struct(fcp, name) and conforms_struct(fcp, name, v))
     ensures(result == v)
     ghost_arg("decode", v=v)
